@@ -250,6 +250,13 @@ func (s *Lexer) readNumber() (Token, error) {
 		}
 	}
 
+	// a number must not be directly followed by a digit, a dot or the start of a name
+	if s.end < len(s.Input) {
+		if r := s.Input[s.end]; r == '.' || r == '_' || (r >= '0' && r <= '9') || (r >= 'A' && r <= 'Z') || (r >= 'a' && r <= 'z') {
+			return s.makeError("Invalid number, expected digit but got: %s.", s.describeNext())
+		}
+	}
+
 	if float {
 		return s.makeToken(Float)
 	}
